@@ -7,6 +7,7 @@ import (
 	"fmt"
 	"hash/crc32"
 	"io"
+	"math"
 
 	"github.com/klauspost/compress/zstd"
 	"github.com/pierrec/lz4/v4"
@@ -433,7 +434,13 @@ func loadChunk(l *Lexer, recordLen uint64) error {
 			return ErrChunkTooLarge
 		}
 		if uint64(len(l.uncompressedChunk)) < uncompressedSize {
-			l.uncompressedChunk, err = makeSafe(uncompressedSize * 2)
+			// grow to twice the declared size to amortise reallocation, unless doubling would
+			// overflow or exceed what makeSafe permits (the size comes from the input).
+			allocSize := uncompressedSize
+			if uncompressedSize < math.MaxInt32/2 {
+				allocSize = uncompressedSize * 2
+			}
+			l.uncompressedChunk, err = makeSafe(allocSize)
 			if err != nil {
 				return fmt.Errorf("failed to allocate chunk buffer: %w", err)
 			}
